@@ -27,6 +27,16 @@ theorem tariff_total_sce_tou_ev_8_june_2019 (t : Int) :
     (∃ r, getTariffAt (loadedOf sce_tou_ev_8_june_2019) t = .ok r) ∧ (∃ d, getDemandAt (loadedOf sce_tou_ev_8_june_2019) t = .ok d) :=
   tariff_total_of_table _ total_unambiguous_sce_tou_ev_8_june_2019 breakpoints_ok_sce_tou_ev_8_june_2019 t
 
+/-- at EVERY instant the price is the rate of the unique valid schedule at the greatest breakpoint
+    `k/2 h` with `1800·k ≤ seconds since midnight` -/
+theorem tariff_spec_sce_tou_ev_8_june_2019 (t : Int) :
+    ∃ sch ∈ loadedOf sce_tou_ev_8_june_2019, selectSchedule (loadedOf sce_tou_ev_8_june_2019) (fieldsOf t).md (fieldsOf t).wd = .ok sch ∧
+      ∃ p ∈ sch.tariffs, ∃ kp : Nat, getTariffAt (loadedOf sce_tou_ev_8_june_2019) t = .ok p.2 ∧ p.1 = (kp : ℚ) / 2 ∧
+        1800 * kp ≤ secOfDay (fieldsOf t).h (fieldsOf t).m (fieldsOf t).s ∧
+        ∀ q ∈ sch.tariffs, ∀ kq : Nat, q.1 = (kq : ℚ) / 2 →
+          1800 * kq ≤ secOfDay (fieldsOf t).h (fieldsOf t).m (fieldsOf t).s → kq ≤ kp :=
+  get_tariff_at_spec _ total_unambiguous_sce_tou_ev_8_june_2019 breakpoints_ok_sce_tou_ev_8_june_2019 t
+
 example : 2 ≤ (loadedOf sce_tou_ev_8_june_2019).length := by decide +kernel
 
 end Acn.C17
